@@ -178,3 +178,34 @@ Theorem C13_exec_identifier_lexers_have_the_veto :
   HandLex.lx_veto GenLexers.lx_simple_identifier_impl = true /\ HandLex.lx_veto GenLexers.lx_c_identifier_impl = true /\
   List.length (filter (fun d => match d with PLex l => HandLex.lx_veto l | _ => false end) GenPrims.prim_table) = 2%nat.
 Proof. vm_compute. repeat split; reflexivity. Qed.
+
+Open Scope string_scope.
+
+(* ------------------------------------------------------------------ the tables against the standard's own account *)
+(* IEEE 1800-2017 22.14 lists, per version specifier, the reserved words of that standard; what each list adds to the one
+   before it is stated here from the standard (not read from the code): sizes 102 / 113 / 123 / 124 / 221 / 244 / 248 / 248,
+   no word twice, and the words added by 1364-2001 (without and with configurations), 1364-2005, 1800-2009 and 1800-2012
+   by name.  A word dropped from, added to or duplicated in a table breaks this theorem. *)
+Definition diff (a b : list string) : list string := filter (fun w => negb (mem w a)) b.
+Definition seteq (a b : list string) : bool := subset a b && subset b a.
+Fixpoint nodupb (l : list string) : bool := match l with [] => true | x :: r => negb (mem x r) && nodupb r end.
+
+Theorem C13_what_each_standard_adds :
+  map (@List.length string) [keywords_1364_1995; keywords_1364_2001_noconfig; keywords_1364_2001; keywords_1364_2005;
+                             keywords_1800_2005; keywords_1800_2009; keywords_1800_2012; keywords_1800_2017]
+    = [102; 113; 123; 124; 221; 244; 248; 248]%nat /\
+  forallb nodupb [keywords_1364_1995; keywords_1364_2001_noconfig; keywords_1364_2001; keywords_1364_2005;
+                  keywords_1800_2005; keywords_1800_2009; keywords_1800_2012; keywords_1800_2017; keywords_directive] = true /\
+  seteq (diff keywords_1364_1995 keywords_1364_2001_noconfig)
+        ["automatic"; "endgenerate"; "generate"; "genvar"; "localparam"; "noshowcancelled"; "pulsestyle_ondetect";
+         "pulsestyle_onevent"; "showcancelled"; "signed"; "unsigned"] = true /\
+  seteq (diff keywords_1364_2001_noconfig keywords_1364_2001)
+        ["cell"; "config"; "design"; "endconfig"; "incdir"; "include"; "instance"; "liblist"; "library"; "use"] = true /\
+  seteq (diff keywords_1364_2001 keywords_1364_2005) ["uwire"] = true /\
+  seteq (diff keywords_1800_2005 keywords_1800_2009)
+        ["accept_on"; "checker"; "endchecker"; "eventually"; "global"; "implies"; "let"; "nexttime"; "reject_on"; "restrict";
+         "s_always"; "s_eventually"; "s_nexttime"; "s_until"; "s_until_with"; "strong"; "sync_accept_on"; "sync_reject_on";
+         "unique0"; "until"; "until_with"; "untyped"; "weak"] = true /\
+  seteq (diff keywords_1800_2009 keywords_1800_2012) ["implements"; "interconnect"; "nettype"; "soft"] = true /\
+  seteq keywords_1800_2012 keywords_1800_2017 = true.
+Proof. vm_compute. repeat split; reflexivity. Qed.
